@@ -23,7 +23,8 @@ PROPS = {
                          "qwrap3"],
                 caps=dict(quick=[1, 2, 3], thorough=[1, 2, 3, 4, 5, 6, 7]), invariants=["QuiescentMeansDone"]),
     "C14": dict(benches=["query", "query6"], caps=dict(quick=[1, 2], thorough=[1, 2, 4]), invariants=[]),
-    "C16": dict(benches=["hier", "hier3"], caps=dict(quick=[1, 2], thorough=[1, 2, 3]), invariants=["InitOnceFirst"]),
+    "C16": dict(benches=["hier", "hier3", "hpanic_P", "hpanic_P_a", "hpanic_P_b", "hpanic_P_a_x", "hpanic_Q"],
+                caps=dict(quick=[2], thorough=[1, 2, 3]), invariants=["InitOnceFirst"]),
 }
 
 
@@ -61,6 +62,24 @@ def canon_tlc_outcome(o):
     hs = sorted([list(x) for x in o["handled"]])
     ss = {s: sorted([list(x) for x in v]) for s, v in (o["sinks"].items() if isinstance(o["sinks"], dict) else [])}
     return json.dumps(dict(r=o["r"], handled=hs, sinks=ss), sort_keys=True)
+
+
+def strip_stray(run):
+    """After a model panic on the thread pool the run returns while other workers may still finish the handler they
+    were in: their events, logged between the failing return and the next command, belong to the aborted run."""
+    if run[0].get("threads", 1) <= 1:
+        return run
+    out, skipping = [], False
+    for e in run:
+        ev = e.get("ev")
+        if skipping and ev in ("hb", "he", "ss", "sd", "ib", "ie", "push", "pop"):
+            continue
+        if ev in ("cmd", "end", "hang", "crash"):
+            skipping = False
+        out.append(e)
+        if ev == "ret" and e["res"].get("r") == "panic":
+            skipping = True
+    return out
 
 
 def describe(rej):
@@ -155,7 +174,7 @@ def run(prop, tier, seed):
             for src, rs, incident in sources:
                 for r in rs:
                     r[0]["src"] = src
-                allruns.extend(rs)
+                allruns.extend(strip_stray(r) for r in rs)
             if not allruns:
                 continue
             acc, rej, st = benchrun.validate(b, allruns, wd, f"v_{b['name']}", invariants=cfg["invariants"],
